@@ -35,7 +35,8 @@ RULE = ("scenario = (shape, firing order / variant, result kind, N): chain shape
         "over N pre-fired Deferreds (success / failure caught), generator with an unfired Deferred every "
         "1000th yield (the rest resolve synchronously inside the resumption), nested inlineCallbacks; every chain shape again with all / every 3rd / a random half of the links "
         "being instances of a trivial Deferred subclass, of a subclass overriding pause/unpause/callback/"
-        "errback via super(), or DeferredList/gatherResults aggregates over one source; N in "
+        "errback via super(), or DeferredList/gatherResults aggregates over one source; generators and "
+        "coroutines awaiting subclass instances; N in "
         "{1e3, 1e4} (+1e5 for seven shapes) quick, 1e5 for all thorough.  A case is distinct by that tuple and "
         "is non-trivial when N >= 1000 (longer than the recursion limit could hide).")
 ASSUMPTIONS = [
@@ -250,8 +251,22 @@ def one_deferred_many_returns(n, variant, kind, probe, links=None):
     return out, final, n
 
 
-def gen_prefired(n, variant, kind, probe):
+def gen_prefired(n, variant, kind, probe, links=None):
     from twisted.internet.defer import Deferred, ensureDeferred, fail, inlineCallbacks, succeed
+
+    if links:
+        # the awaited Deferreds are instances of a Deferred subclass
+        Deferred = _classes()[links.split("-")[0]]  # noqa: F811
+
+        def succeed(v):  # noqa: F811
+            x = Deferred()
+            x.callback(v)
+            return x
+
+        def fail(e):  # noqa: F811
+            x = Deferred()
+            x.errback(e)
+            return x
 
     final = _Val()
     out = []
@@ -365,6 +380,9 @@ def scenarios(ctx):
     for cls in ("trivial", "overriding"):
         for variant in ("fired", "later"):
             out.append(("onedef", variant, "s", small, None, cls + "-all"))
+        for variant in ("generator", "coroutine", "mixed1000", "nested"):
+            for kind in ("s", "f"):
+                out.append(("gen", variant, kind, small, None, cls + "-all"))
     seen, uniq = set(), []
     for s in out:
         if s not in seen:
@@ -388,7 +406,7 @@ def execute(ctx, sc, n):
     elif shape == "onedef":
         res = one_deferred_many_returns(n, variant, kind, probe, links)
     else:
-        res = gen_prefired(n, variant, kind, probe)
+        res = gen_prefired(n, variant, kind, probe, links)
     return probe, res
 
 
